@@ -317,6 +317,9 @@ def refine(facts, expr, polarity, atom_of):
         f = dict(facts)
         f[a] = polarity
         return [f]
+    if isinstance(expr, ast.Name) and expr.id in (getattr(atom_of, "definitions", None) or {}):
+        # a local that names a condition (assigned once): the condition itself
+        return refine(facts, atom_of.definitions[expr.id], polarity, atom_of)
     if isinstance(expr, ast.UnaryOp) and isinstance(expr.op, ast.Not):
         return refine(facts, expr.operand, not polarity, atom_of)
     if isinstance(expr, ast.BoolOp):
